@@ -203,7 +203,7 @@ def run(chk: lib.Check):
             del_acc = getattr(type(par), relname)
             tel = obj._element
             # ---- the entry point decides how many objects go at once
-            entry = rng.choice(["delitem", "delitem", "remove", "delete_all", "delattr", "delattr", "delslice", "delslice", "decl", "decl"])
+            entry = rng.choice(["delitem", "delitem", "remove", "delete_all", "delattr", "delattr", "delslice", "delslice", "decl", "decl", "clear", "pop"])
             if tid in refusal_pool:
                 # where a refusal is likely, delete it together with its siblings: all-or-nothing has to hold for the whole call
                 entry = rng.choice(["delattr", "delattr", "delslice", "decl", "delitem"])
@@ -229,6 +229,12 @@ def run(chk: lib.Check):
                     roots_el = [tel]
                 else:
                     roots_el = members
+            elif entry == "clear":
+                if len(members) > 40:
+                    entry = "delitem"
+                    roots_el = [tel]
+                else:
+                    roots_el = list(reversed(members))      # MutableSequence.clear() pops from the end
             elif entry == "decl":
                 pick = [idx] + rng.sample([i for i in range(len(members)) if i != idx], min(len(members) - 1, rng.choice([1, 1, 2])))
                 if rng.random() < 0.7:
@@ -313,6 +319,12 @@ def run(chk: lib.Check):
                     lst.delete_all(uuid=tid)
                 elif entry == "delslice":
                     del lst[lo:hi]
+                elif entry == "clear":
+                    lst.clear()
+                elif entry == "pop":
+                    got_ = lst.pop(idx if rng.random() < 0.5 else idx - len(lst))
+                    if getattr(got_, "uuid", None) != tid:
+                        chk.violation("pop-returns-other-object", f"{desc}: pop() returned {getattr(got_, 'uuid', None)}", {"model": spec0["name"], "target": tid})
                 elif entry == "decl":
                     from capellambse import decl
                     yml = f"- parent: !uuid {par.uuid}\n  delete:\n    {relname}:\n" + "".join(f"      - !uuid {r_.get('id')}\n" for r_ in roots_el)
@@ -326,7 +338,7 @@ def run(chk: lib.Check):
             after = snapshot(loader, A)
             if outcome != "ok":
                 gone_roots = [A.H(r_) not in after for r_ in roots_el]
-                if after != before and len(roots_el) > 1 and entry in ("delslice", "decl") and any(gone_roots) and not all(gone_roots) \
+                if after != before and len(roots_el) > 1 and entry in ("delslice", "decl", "clear") and any(gone_roots) and not all(gone_roots) \
                         and gone_roots == sorted(gone_roots, reverse=True):
                     # the objects are deleted one after the other: those before the refusing one are gone
                     chk.violation(f"partial-multi-delete:{entry}", f"deleting {desc} raised {outcome} after {sum(gone_roots)} of the {len(roots_el)} objects had been deleted",
@@ -479,7 +491,7 @@ def run(chk: lib.Check):
                    describe=lambda i: descs[i])
     chk.coverage.update({"outcomes": dict(sorted(stats.items())),
                          "rule": "targets stratified over leaves, subtree roots, the most referenced ids and ids referenced from PhysicalLink ends (refusal), in freshly "
-                                 "loaded models and in states reached by random edits, through del list[i] (positive/negative index) / remove / delete_all / del obj.attr / del list[a:b] (several objects) / a declarative delete: with several "
+                                 "loaded models and in states reached by random edits, through del list[i] (positive/negative index) / pop / remove / delete_all / clear / del obj.attr / del list[a:b] (several objects) / a declarative delete: with several "
                                  "entries; a sixth target pool holds subtrees of which one holder's relation references several members; "
                                  "after each deletion: lookups of all deleted ids, a raw token scan of every remaining attribute, every relation of the former holders, "
                                  "and an element-by-element diff of the whole model; the model's predicted removed set and remaining references are compared in Coq"})
